@@ -125,6 +125,31 @@ func c12Scenarios(tier string) []*Scenario {
 			}
 		}
 	}
+	// `up a --no-deps --ordered-shutdown`: only a is selected (its own depends_on is cleared); b, which depends on a, is
+	// listed as disabled, keeps its dependency and is started by hand. The order still holds at shutdown.
+	{
+		nodes := []GNode{{Name: "a", Beh: "daemon"}, {Name: "b", Beh: "daemon", Deps: map[string]string{"a": cStarted}}}
+		yaml, procs, _ := buildGraph(nodes, nil)
+		aUp := func(w *World) bool { return w.launches["a#0"] > 0 }
+		both := func(w *World) bool {
+			n := 0
+			for _, f := range w.procs {
+				if f.Alive() {
+					n++
+				}
+			}
+			return n == 2
+		}
+		sc := &Scenario{
+			ID:   "c12-nodeps-selected[a]-manual[b]",
+			YAML: yaml, Procs: procs, K: 1, Ordered: true, TickBudget: 1, ToRun: []string{"a"}, NoDeps: true,
+			API:      [][]APICall{{{Op: "start", Name: "b", When: aUp}, {Op: "shutdown", When: both}}},
+			MapSites: []string{"runningProcessesReverseDependencies", "shutDownInOrder", "ShutDownProject"},
+		}
+		deps := map[string][]string{"b": {"a"}}
+		sc.Check = func(w *World) []Violation { return c12Check(w, deps) }
+		scs = append(scs, sc)
+	}
 	// a dependency that has completed (which released its dependent) and was then launched again by hand:
 	// both run when the shutdown begins; the dependent still goes first
 	for _, cond := range []string{cCompleted, cSucc} {
